@@ -39,6 +39,7 @@ type Clause struct {
 	Params                  []ClauseParam
 	ModKind                 string // for modifies: elems | obj | field | mapof | global
 	ModField                string
+	Show                    bool
 	Assumed                 bool   // assume-at: an environment precondition stated at a program point
 	Anchor                  string // for assert: source text prefix of the statement before which it holds
 	AnchorPos, AnchorEnd    token.Pos
@@ -57,6 +58,7 @@ type Contract struct {
 	Decr        map[int]*Clause
 	Modifies    []*Clause
 	Asserts     []*Clause
+	Shows       []*Clause
 	Linear      []string // slice variables used linearly (s = append(s, ...))
 	Bounded     string   // non-empty: the obligations are a bounded stand-in with this stated bound
 	Tier        string   // "thorough": only checked in the thorough tier
@@ -150,6 +152,11 @@ func parseContractFile(path, pkgPath string) ([]*Contract, error) {
 			cur.Requires = append(cur.Requires, mk("requires", -1, rest))
 		case "ensures":
 			cur.Ensures = append(cur.Ensures, mk("ensures", -1, rest))
+		case "show":
+			// debugging aid: value of an expression (ensures scope) reported from counterexample models
+			c := mk("ensures", -1, rest)
+			c.Show = true
+			cur.Shows = append(cur.Shows, c)
 		case "panics":
 			rest = strings.TrimSpace(strings.TrimPrefix(rest, "when"))
 			cur.PanicsWhen = mk("panics", -1, rest)
@@ -282,7 +289,11 @@ func rewriteSpec(s string) string {
 		}
 		binder := strings.TrimSpace(s[i+len("forall") : i+j])
 		body := rewriteSpec(s[i+j+2:])
-		q := fmt.Sprintf("verif_forall(func(%s) bool { return %s })", binder, body)
+		fname := "verif_forall"
+		if n := len(splitTop(binder, ',')); n > 1 {
+			fname = fmt.Sprintf("verif_forall%d", n)
+		}
+		q := fmt.Sprintf("%s(func(%s) bool { return %s })", fname, binder, body)
 		if k := strings.Index(binder, " in "); k >= 0 {
 			// forall k int in lo..hi :: body   (hi exclusive)
 			rng := strings.SplitN(binder[k+4:], "..", 2)
@@ -791,8 +802,12 @@ func (g *genCtx) genClause(c *Contract, cl *Clause, fs *fnSyntax, si *sigInfo) e
 	if cl.Kind == "decreases" {
 		ret = "int"
 	}
-	if cl.Kind == "modifies" {
-		tv, err := types.Eval(g.pkg.Fset, g.pkg.Types, fs.body.Lbrace+1, goExpr)
+	if cl.Kind == "modifies" || cl.Show {
+		probe := goExpr
+		if cl.Show {
+			probe = strings.ReplaceAll(rewriteSpec(cl.Text), "old(", "(")
+		}
+		tv, err := types.Eval(g.pkg.Fset, g.pkg.Types, fs.body.Lbrace+1, probe)
 		if err != nil {
 			return fmt.Errorf("%s:%d: modifies %s: %v", c.File, c.Line, cl.Text, err)
 		}
@@ -835,6 +850,7 @@ func generateClauses(pkg *packages.Package, contracts []*Contract) (string, []er
 		}
 		all = append(all, c.Modifies...)
 		all = append(all, c.Asserts...)
+		all = append(all, c.Shows...)
 		if c.PanicsWhen != nil {
 			all = append(all, c.PanicsWhen)
 		}
